@@ -301,17 +301,3 @@ Proof.
   induction (client_ids h) as [|c r IH]; simpl; [reflexivity|].
   rewrite disconnected_norm, recvs_norm, IH. reflexivity.
 Qed.
-
-Lemma delivered_b_unfold h : delivered_b h = if ends_quiescent h then delivered_list h else true.
-Proof. reflexivity. Qed.
-
-(* A history the checker accepts (code 1 absent), without shutdown events, satisfies clause 11: if the
-   harness's claim of quiescence is consistent with the model at all, delivery has happened. *)
-Lemma accepted_history_delivered h w :
-  validate h w = true -> shutting_down h = false -> delivered_b h = true.
-Proof.
-  intros V NS. rewrite delivered_b_unfold. destruct (ends_quiescent h) eqn:EQ; [|reflexivity].
-  destruct (validate_run h w V) as [ls [s [P HQ]]].
-  rewrite <- delivered_list_norm. apply (model_history_delivered ls s _ P (HQ EQ)).
-  rewrite shutting_norm. exact NS.
-Qed.
